@@ -245,6 +245,25 @@ func c13Random(rr *prng.R, r *fw.Rec) {
 		}
 		id := &jast.Name{V: "id"}
 		var tree jast.Node
+		if rr.Intn(3) == 0 {
+			// the sequence is a path that starts with a variable, over an input
+			// that is an array of objects holding the items in two halves
+			h := len(items) / 2
+			root := A{O{"arr": A(items[:h])}, O{"arr": A(items[h:])}}
+			arrOf := func(v string) jast.Node {
+				return &jast.Path{Steps: []jast.Node{&jast.Var{Name: v}, &jast.Name{V: "arr"}}}
+			}
+			switch rr.Intn(3) {
+			case 0:
+				tree = &jast.Path{Steps: []jast.Node{srt(arrOf("$")), id}}
+			case 1:
+				tree = &jast.Block{Exprs: []jast.Node{&jast.Assign{Name: "v", Val: &jast.Var{Name: ""}}, &jast.Path{Steps: []jast.Node{srt(arrOf("v")), id}}}}
+			default:
+				tree = &jast.Path{Steps: []jast.Node{&jast.Pred{X: srt(arrOf("")), Filters: []jast.Node{&jast.Num{V: 0}}}, id}}
+			}
+			modelCheck(r, tree, root, "order-by-on-variable-path", judge.Opts{EmptyIsUndef: true}, nil)
+			break
+		}
 		switch rr.Intn(5) {
 		case 0:
 			tree = &jast.Path{Steps: []jast.Node{srt(&jast.Var{Name: ""}), id}}
